@@ -432,6 +432,12 @@ func rulePosCallsite(c *Ctx, r *R) {
 					continue
 				}
 				n++
+				if isDeferredLiteral(fn) {
+					// a deferred function putting a saved frame back (after eval code ran in the caller's scope): it records
+					// no call site
+					r.ok("offset-restore:"+ssaFuncName(fn), c.Pos(instrPos(ins)), "deferred restore of a saved frame position, not a call-site record")
+					continue
+				}
 				res := mustReachBefore(ins, func(i ssa.Instruction) bool {
 					call, ok := i.(ssa.CallInstruction)
 					if !ok {
